@@ -429,7 +429,8 @@ class OutgoingMessageHandler:
         decoded_message: str,
     ) -> None:
         """Process outgoing internal messages."""
-        if message_buffer:
+        node = gateway.nodes.get(message.node_id)
+        if message_buffer and node and node.sleeping:
             message_buffer.internal_messages[
                 (message.node_id, message.child_id, message.message_type)
             ] = message
